@@ -46,6 +46,7 @@ dbus_bool_t bus_matchmaker_remove_rule_by_value (BusMatchmaker *m, BusMatchRule 
   if (!rule_present) { dbus_set_error_const (e, DBUS_ERROR_MATCH_RULE_NOT_FOUND, "nf"); return 0; }
   g_ack_before_remove = g_acks; g_removed_by_value++; conn.n_rules--; return 1;
 }
+dbus_bool_t bus_matchmaker_has_rule_by_value (BusMatchmaker *m, BusMatchRule *r) { return rule_present; }
 void bus_match_rule_unref (BusMatchRule *r) { }
 /* privilege check and ack reply are statics of driver.c reached through their real bodies; their callees: */
 dbus_bool_t dbus_connection_get_unix_user (DBusConnection *c, unsigned long *uid) { *uid = privileged ? 0 : 1000; return 1; }
@@ -79,6 +80,12 @@ void harness (void)
     {
       VF_ASSERT (err.name != 0, "failure carries an error");
       VF_ASSERT (g_removed_by_value == 0 && conn.n_rules == n, "a RemoveMatch that fails (NoMemory, invalid rule, rule not found) has removed nothing");
+      /* C07: "RemoveMatch removes one rule equal to its argument or FAILS with MatchRuleNotFound".  bus_dispatch answers a handler error other than
+       * NoMemory with an error reply in the SAME transaction (only NoMemory cancels it), so a success acknowledgement staged before such an
+       * error reaches the caller first and the call appears to succeed (F13). */
+      if (strcmp (err.name, DBUS_ERROR_NO_MEMORY) != 0) VF_ASSERT (g_acks == 0, "a RemoveMatch that fails with a real error (rule not found, invalid rule) has not staged a success reply");
+      if (strcmp (err.name, DBUS_ERROR_MATCH_RULE_NOT_FOUND) == 0) VF_WITNESS_OPT ("RemoveMatch of an absent rule");
+      if (!rule_present && parse_ok) VF_ASSERT (strcmp (err.name, DBUS_ERROR_MATCH_RULE_NOT_FOUND) == 0 || strcmp (err.name, DBUS_ERROR_NO_MEMORY) == 0, "an absent rule is reported as MatchRuleNotFound");
       if (strcmp (err.name, DBUS_ERROR_NO_MEMORY) == 0) VF_WITNESS ("RemoveMatch ran out of memory");
     }
   else
